@@ -181,6 +181,12 @@ func c17() {
 	for i := 0; i < run.N(6, 200); i++ {
 		hists = append(hists, hist{kind: "two-interruptions", k: r0.Intn(total + 1), k2: r0.Intn(total + 1)})
 	}
+	// crash points at system-call granularity: the process dies on entering its n-th write/rename/... (strace delivers
+	// SIGKILL there), i.e. right after everything before it took effect - e.g. between the last write and the rename,
+	// or between the rename and what follows it
+	for n := 1; n <= run.N(90, 400); n++ {
+		hists = append(hists, hist{kind: "crash-on-entering-nth-write-or-rename", k: n})
+	}
 	// a second run that overlaps a first one which is still writing: it must not reuse what is there so far
 	for _, k := range []int{0, 100, 4096, 8192, 20000, total / 2, total - 100} {
 		hists = append(hists, hist{kind: "overlapping-run", k: k})
@@ -284,6 +290,11 @@ func c17() {
 			}
 			copyFile(target, fx.binB)
 			wantProfile, finalListing = coldB, fx.listB
+		case "crash-on-entering-nth-write-or-rename":
+			set := "write,rename,renameat,renameat2,fsync,ftruncate,unlink,unlinkat"
+			step(vlib.ToolRun{Argv: argv(target), FakeMode: "emit", Listing: fx.listA, Strace: []string{"-f", "-e", "trace=" + set, "-e", fmt.Sprintf("inject=%s:signal=KILL:when=%d", set, h.k)}},
+				fmt.Sprintf("run 1: SIGKILL on entering the %d-th write/rename/unlink/fsync of a thread", h.k))
+			run.Count("syscall_granular_crash_points", 1)
 		case "enospc-at-write":
 			step(vlib.ToolRun{Argv: argv(target), FakeMode: "emit", Listing: fx.listA, Strace: []string{"-e", "trace=write", "-e", fmt.Sprintf("inject=write:error=ENOSPC:when=%d+", h.k)}},
 				fmt.Sprintf("run 1: every write of the profiler from its #%d on fails with ENOSPC", h.k))
@@ -359,5 +370,5 @@ func c17() {
 		}
 	}
 	run.Finish(run.Counter("histories"), int64(len(distinct)),
-		"two- and three-run histories of the built seccomp-profiler in private mount namespaces (own ~/.seccomp-profiler): run 1 interrupted by SIGKILL after the scripted disassembler emitted k bytes (k swept over 0,1,63..65, every 4096-byte flush boundary +-1, end, PRNG), disassembler absent / exiting 1 or killed after k bytes / after everything, ENOSPC on every write from the K-th on, EIO while hashing, binary replaced, a second run overlapping a first one that is still writing; then a normal run whose profile must equal the cold-cache profile or fail; distinct = (kind, k/512) cells")
+		"two- and three-run histories of the built seccomp-profiler in private mount namespaces (own ~/.seccomp-profiler): run 1 interrupted by SIGKILL after the scripted disassembler emitted k bytes (k swept over 0,1,63..65, every 4096-byte flush boundary +-1, end, PRNG), disassembler absent / exiting 1 or killed after k bytes / after everything, SIGKILL on entering the n-th write/rename/unlink of a thread (strace signal injection, n swept), ENOSPC on every write from the K-th on, EIO while hashing, binary replaced, a second run overlapping a first one that is still writing; then a normal run whose profile must equal the cold-cache profile or fail; distinct = (kind, k/512) cells")
 }
